@@ -16,6 +16,9 @@ inductive TStep where
   | txtPair                 -- two string fields: `sprintTxt([]string{rr.F, rr.G})` / the chunks of `endingToTxtSlice` shared out as HINFO and ISDN do
   | octet                   -- `endingToOctetString(c, …)` / `sprintTxtOctet(rr.F)`: one string of any length, quoted or not (URI, CAA)
   | tokStr                  -- the token as it is, which must be a string token (`if l.value != zString { return … }; rr.F = l.token`)
+  | hexGroups (digits group sep : Nat) (upper : Bool)  -- `fmt.Sprintf("%0<digits>x", rr.F)` cut into groups joined by a separator (EUI48, EUI64, NID, L64)
+  | euiTok (groups : Nat)    -- `(*EUI48).parse` / `(*EUI64).parse`: that many pairs of hex digits with a dash between them
+  | nodeId                  -- `stringToNodeID`: four groups of four hex digits with colons
   | txtFirst                -- one string field: `sprintTxt([]string{rr.F})` / the first chunk of `endingToTxtSlice` (UINFO)
   | blank                   -- `c.Next()` that skips the blank / `" "`
   | slurp                   -- `slurpRemainder(c)`
